@@ -491,8 +491,12 @@ class Check:
         ev = {
             'property_id': self.prop, 'tier': self.tier, 'seed': self.seed, 'level': 'proof',
             'coverage': {
-                # obligations isolated under a listed open finding are reported separately, not as proof obligations
-                'obligations': len(self.obligations) - len(finding_obs), 'discharged': len(proved),
+                # obligations isolated under a listed open finding, and obligations of kind 'bounded' (fixed rank / arity
+                # stand-ins), are decided like the others but are not counted as proof obligations
+                'obligations': len([o for o in self.obligations if o.kind != 'bounded']) - len(finding_obs),
+                'discharged': len([o for o in proved if o.kind != 'bounded']),
+                'bounded_obligations': {'stated': len([o for o in self.obligations if o.kind == 'bounded']),
+                                        'discharged': len([o for o in proved if o.kind == 'bounded'])},
                 'obligations_refuted_under_listed_open_findings': [o.name for o in finding_obs][:40],
                 'checker_cmd': f'./vf check {self.prop} --tier {self.tier}',
                 'trusted_base': sorted(self.trusted),
